@@ -225,11 +225,19 @@ class Fn:
     def kids(self, i):
         return [c for c in self.nodes[i]["c"] if c >= 0]
 
+    CONTAINERS = ("CompoundStmt", "IfStmt", "WhileStmt", "ForStmt", "DoStmt", "SwitchStmt", "CaseStmt", "DefaultStmt", "LabelStmt")
+
     def walk(self, i):
+        """pre-order walk of the subtree of i. The body of a virtually inlined helper hangs under its call node: a walk that
+        starts at a statement container goes through it (the helper's statements execute there), a walk of an expression
+        (an initialiser, an argument, a condition) treats the inlined call as a leaf — its value, not its body."""
+        deep = self.nodes[i]["k"] in self.CONTAINERS
         st = [i]
         while st:
             x = st.pop()
             yield x
+            if not deep and self.nodes[x].get("inlined"):
+                continue
             st.extend(reversed(self.kids(x)))
 
     def all(self, pred=None, kind=None):
